@@ -295,8 +295,12 @@ func choosePlan[T any](c *engine.Chooser, a *adapter[T], cfg *scenarioCfg) plan 
 		}
 		p.mats = append(p.mats, mp)
 	}
-	p.describe = fmt.Sprintf("%s set=%s%v ratio=%d ltLevelQ=%d ctLevel=%d levelP=%d out=%d ltAlt=%v ctAlt=%v warm=%v keyLvlQ=%v repeat=%v",
-		entryName[p.entry], s.name, s.idx, cfg.ratio, ltLevel, p.ctLevel, p.levelP, p.outMode, p.ltAlt, p.ctAlt, p.warm, p.keyLvlQ, p.repeat)
+	shown := fmt.Sprint(s.idx)
+	if len(s.idx) > 16 {
+		shown = fmt.Sprintf("[%d .. %d, %d indexes]", s.idx[0], s.idx[len(s.idx)-1], len(s.idx))
+	}
+	p.describe = fmt.Sprintf("%s set=%s%s ratio=%d ltLevelQ=%d ctLevel=%d levelP=%d out=%d ltAlt=%v ctAlt=%v warm=%v keyLvlQ=%v repeat=%v",
+		entryName[p.entry], s.name, shown, cfg.ratio, ltLevel, p.ctLevel, p.levelP, p.outMode, p.ltAlt, p.ctAlt, p.warm, p.keyLvlQ, p.repeat)
 	return p
 }
 
